@@ -50,8 +50,9 @@ def gen_cases(rnd, n):
                 q.pop('join', None)
             elif shape == 'agg':
                 nnum = 1
+                npool = qgen.num_pool(rnd)
                 for r in A:
-                    r.append(rnd.choice(qgen.NUMSTR_POOL))
+                    r.append(rnd.choice(npool))
                 keyed = rnd.random() < 0.7
                 if keyed:
                     q['group'] = [['a', 0]] if rnd.random() < 0.8 else [['a', 0], ['a', 1]]
